@@ -162,23 +162,46 @@ class Executor:
             s.pop()
 
     def check_cover(self, st):
-        '''the satisfiability check behind a vacuity guard: the quick feasibility
-        budget (250 ms) can run out on a busy machine, so `unknown` is retried
-        with a budget that does not depend on load'''
+        '''the satisfiability check behind a vacuity guard.  The quick feasibility
+        budget (250 ms) can run out on a busy machine, and z3 can answer `unknown`
+        on its own account (incomplete arithmetic; the answer varies with the
+        names the terms happen to have got in this worker process).  `unknown` is
+        therefore retried: longer budgets, other random seeds, then cvc5 on the
+        dumped query.  Only `unsat` means vacuous.'''
         r = self.check(st)
         if r != z3.unknown:
             return r
-        for budget in (5000, 30000):
+        def fresh_solver(budget, seed):
             s = z3.Solver()
             s.set('timeout', budget)
+            s.set('random_seed', seed)
             for a in C.str_axioms(): s.add(a)
             for a in self.axioms:
                 if not has_quant(a): s.add(a)
             for a in st.pc:
                 if not has_quant(a): s.add(a)
+            return s
+        for budget, seed in ((5000, 0), (5000, 1), (10000, 2), (30000, 3)):
+            s = fresh_solver(budget, seed)
             r = s.check()
             if r != z3.unknown:
                 return r
+        try:
+            import subprocess, tempfile, os as _os
+            fd, path = tempfile.mkstemp(suffix='.smt2', prefix='cover_')
+            with _os.fdopen(fd, 'w') as f:
+                f.write('(set-logic ALL)\n' + fresh_solver(1000, 0).to_smt2().replace('(set-info :status unknown)\n', ''))
+            out = subprocess.run(['/usr/bin/cvc5', '--tlimit=30000', '--lang=smt2', path],
+                                 capture_output=True, text=True, timeout=40).stdout.strip().split('\n')[0]
+            if out in ('sat', 'unsat'):
+                _os.remove(path)
+            else:
+                import shutil as _sh
+                _sh.move(path, '/verif/out/cover_unknown_%d.smt2' % _os.getpid())
+            if out == 'sat':   return z3.sat
+            if out == 'unsat': return z3.unsat
+        except Exception:
+            pass
         return r
 
     def feasible(self, st, extra=None):
